@@ -448,6 +448,7 @@ def project(spec, desc, cfg, o, res, calls, crash) -> dict:
         "best": [best[0], rk.rk(best[1]), best[2]] if best else [1, 0, 1],
         "calls": callp, "crash": crash, "completed": res is not None,
         "cyc": [int(c) for c in getattr(o, "_vcyc", [])],
+        "nerr": [[int(a), int(b)] for a, b in getattr(o, "_vnerr", [])],
         "lead": [[x[0], rk.rk(x[1])] if x is not None else [0, 0] for x in lead_raw],
         "aux": [{"kind": k, "a": [[p, rk.rk(c)] for p, c in a], "t": [int(v) for v in t], "limit": int(lim)} for k, a, t, lim in aux_raw],
         "slotwise": opt in gen.GREEDY_EACH or os.environ.get("VERIF_SLOTWISE_ALL") == "1",
@@ -497,7 +498,7 @@ def run_all(specs: list[dict], jobs: int = 14, timeout: int = 120) -> list[dict]
 
 TLC_FIELDS = ["id", "N", "dir", "D", "sizecls", "elitist", "kindp", "mc", "hasFe", "hasEs", "pat", "lefe", "dec", "nrates",
               "rate_ok", "steps", "gens", "ptab", "ftab", "dtab", "stab", "snaps", "evo", "best", "calls", "crash",
-              "completed", "cfg_same", "task_same", "trend_ok", "trend", "tpos", "sub", "repro", "reuse", "cyc", "lead", "aux", "slotwise"]
+              "completed", "cfg_same", "task_same", "trend_ok", "trend", "tpos", "sub", "repro", "reuse", "cyc", "nerr", "lead", "aux", "slotwise"]
 
 
 def judge_runs(records: list[dict], tag: str):
